@@ -157,28 +157,44 @@ fn from_data_value(d: &DataValue) -> Sample {
 // filter tokens
 // ---------------------------------------------------------------------------------------------
 
+#[derive(Clone, Copy, Debug, PartialEq)]
+enum Wire {
+    Exact,
+    BadType,
+    NonObj,
+    NoBody,
+    Len(usize),
+}
+
 #[derive(Clone, Copy, Debug)]
 struct Dcf {
     trigger: u32,
     db_type: u32,
     db_val: f64,
+    /// how the filter is put on the wire (the decoder's own error arms)
+    wire: Wire,
 }
 
 fn parse_filter(fk: &str, tr: &str, dt: &str, dv: &str) -> Option<Option<Dcf>> {
-    match fk {
-        "none" => Some(None),
-        "dcf" => {
-            if dv.len() != 17 || !dv.starts_with('f') {
-                return None;
-            }
-            Some(Some(Dcf {
-                trigger: tr.parse().ok()?,
-                db_type: dt.parse().ok()?,
-                db_val: f64::from_bits(u64::from_str_radix(&dv[1..], 16).ok()?),
-            }))
-        }
-        _ => None,
+    if fk == "none" {
+        return Some(None);
     }
+    if dv.len() != 17 || !dv.starts_with('f') {
+        return None;
+    }
+    let wire = match fk {
+        "dcf" => Wire::Exact,
+        "badtype" => Wire::BadType,
+        "nonobj" => Wire::NonObj,
+        "nobody" => Wire::NoBody,
+        _ => Wire::Len(fk.strip_prefix("len")?.parse().ok()?),
+    };
+    Some(Some(Dcf {
+        trigger: tr.parse().ok()?,
+        db_type: dt.parse().ok()?,
+        db_val: f64::from_bits(u64::from_str_radix(&dv[1..], 16).ok()?),
+        wire,
+    }))
 }
 
 /// the wire form of a DataChangeFilter (so that out-of-range enum values can be expressed)
@@ -190,9 +206,22 @@ fn filter_object(f: &Option<Dcf>) -> ExtensionObject {
             body.extend_from_slice(&f.trigger.to_le_bytes());
             body.extend_from_slice(&f.db_type.to_le_bytes());
             body.extend_from_slice(&f.db_val.to_bits().to_le_bytes());
-            ExtensionObject {
-                node_id: ObjectId::DataChangeFilter_Encoding_DefaultBinary.into(),
-                body: ExtensionObjectEncoding::ByteString(ByteString::from(body)),
+            let dcf_id: NodeId = ObjectId::DataChangeFilter_Encoding_DefaultBinary.into();
+            match f.wire {
+                Wire::Exact => ExtensionObject { node_id: dcf_id, body: ExtensionObjectEncoding::ByteString(ByteString::from(body)) },
+                Wire::BadType => ExtensionObject {
+                    node_id: ObjectId::ReadRequest_Encoding_DefaultBinary.into(),
+                    body: ExtensionObjectEncoding::ByteString(ByteString::from(body)),
+                },
+                Wire::NonObj => ExtensionObject {
+                    node_id: NodeId::new(2, "not-an-object-id"),
+                    body: ExtensionObjectEncoding::ByteString(ByteString::from(body)),
+                },
+                Wire::NoBody => ExtensionObject { node_id: dcf_id, body: ExtensionObjectEncoding::None },
+                Wire::Len(n) => {
+                    body.resize(n, 0);
+                    ExtensionObject { node_id: dcf_id, body: ExtensionObjectEncoding::ByteString(ByteString::from(body)) }
+                }
             }
         }
     }
@@ -644,7 +673,14 @@ fn gen_filter(rng: &mut Rng) -> String {
         2 => 2,
         _ => *rng.pick(&[3u32, 4, 255, u32::MAX]),
     };
-    format!("dcf {} {} {}", trigger, db_type, f64tok(gen_deadband(rng)))
+    let kind = match rng.weighted(&[30, 1, 1, 1, 4]) {
+        0 => "dcf".to_string(),
+        1 => "badtype".to_string(),
+        2 => "nonobj".to_string(),
+        3 => "nobody".to_string(),
+        _ => format!("len{}", rng.pick(&[0usize, 3, 4, 8, 15, 16, 17, 40])),
+    };
+    format!("{} {} {} {}", kind, trigger, db_type, f64tok(gen_deadband(rng)))
 }
 
 /// a small pool of values of one family, spaced around the deadband so that steps fall on both
@@ -652,7 +688,7 @@ fn gen_filter(rng: &mut Rng) -> String {
 fn gen_pool(rng: &mut Rng, d: f64, tier: Tier) -> Vec<String> {
     let d = if d.is_finite() && d > 0.0 && d < 1.0e6 { d } else { 1.0 };
     let mut pool = Vec::new();
-    let fam = rng.weighted(&[6, 6, 3, 3, 2, 2, 3]);
+    let fam = rng.weighted(&[6, 6, 3, 3, 2, 2, 3, 1]);
     match fam {
         0 => {
             // doubles around a base
@@ -720,6 +756,12 @@ fn gen_pool(rng: &mut Rng, d: f64, tier: Tier) -> Vec<String> {
             pool.push("b0".to_string());
             pool.push("b1".to_string());
             pool.push("-".to_string());
+        }
+        7 => {
+            // the extremes only: the difference overflows to infinity, differences of infinities are NaN
+            for x in [f64::MAX, -f64::MAX, 0.0, f64::INFINITY, f64::NEG_INFINITY] {
+                pool.push(f64tok(x));
+            }
         }
         _ => {
             // mixed kinds
